@@ -363,8 +363,13 @@ Section Indep.
     (ungated tbl l KCwd = true -> e_cwd e1 = e_cwd e2).
 
   (* the source facts the order-independence needs for this configuration *)
+  (* configuration files, if any, are loaded in command-line order *)
+  Definition config_order_ok (c : cfg) : bool :=
+    match c_config_files c with [] => true | _ => sf_config_cmdline_order sf end.
+
   Definition order_facts (c : cfg) : bool :=
-    (negb (uses_includes (c_lang c)) || sf_inc_sorted sf) && negb (ungated tbl (c_lang c) KNsIter) && sf_natsort_total sf.
+    (negb (uses_includes (c_lang c)) || sf_inc_sorted sf) && negb (ungated tbl (c_lang c) KNsIter) && sf_natsort_total sf
+    && config_order_ok c.
 
   Lemma include_list_indep e1 e2 c d :
     sf_inc_sorted sf = true -> include_list sf e1 c d = include_list sf e2 c d.
@@ -402,9 +407,13 @@ Section Indep.
   Qed.
 
   Lemma header_indep e1 e2 c it :
-    c_embed_audit c = false -> env_agree (c_lang c) e1 e2 -> header sf tbl e1 c it = header sf tbl e2 c it.
+    c_embed_audit c = false -> config_order_ok c = true -> env_agree (c_lang c) e1 e2 ->
+    header sf tbl e1 c it = header sf tbl e2 c it.
   Proof.
-    intros Ha Hag. unfold header. apply map_ext_in. intros s Hs. apply filter_In in Hs as [Hin Hf].
+    intros Ha Hco Hag. unfold header. f_equal.
+    2:{ unfold config_order_ok in Hco. destruct (c_config_files c) eqn:E; [reflexivity|].
+        unfold eff_option, load_order. rewrite Hco. reflexivity. }
+    apply map_ext_in. intros s Hs. apply filter_In in Hs as [Hin Hf].
     apply andb_prop in Hf as [Hl _]. apply eval_site_indep; assumption.
   Qed.
 
@@ -420,7 +429,8 @@ Section Indep.
     c_embed_audit c = false -> order_facts c = true -> env_agree (c_lang c) e1 e2 ->
     mk_write B sf tbl render e1 c I it = mk_write B sf tbl render e2 c I it.
   Proof.
-    intros Ha Hof Hag. apply andb_prop in Hof as [Hof Hnat]. apply andb_prop in Hof as [Hinc Hns]. apply negb_true_iff in Hns.
+    intros Ha Hof Hag. apply andb_prop in Hof as [Hof Hco]. apply andb_prop in Hof as [Hof Hnat].
+    apply andb_prop in Hof as [Hinc Hns]. apply negb_true_iff in Hns.
     unfold mk_write. f_equal. f_equal.
     - apply header_indep; assumption.
     - destruct it; try reflexivity. destruct (uses_includes (c_lang c)); [|reflexivity].
@@ -493,6 +503,37 @@ Section Indep.
     apply writes_env_indep; assumption.
   Qed.
 
+  (* the state of the output directory: when no file is skipped because of what is already there, every generated path holds
+     exactly what a run into an empty directory puts there, whatever the directory held before *)
+  Lemma lookup_last_app p (a b : list (list (list N) * fcontent B)) acc :
+    lookup_last B p (a ++ b) acc = lookup_last B p b (lookup_last B p a acc).
+  Proof. revert acc; induction a as [|[q x] a IH]; intros acc; cbn; [reflexivity|apply IH]. Qed.
+
+  Lemma lookup_last_hit p (w : list (list (list N) * fcontent B)) : forall acc1 acc2,
+    In p (map fst w) -> lookup_last B p w acc1 = lookup_last B p w acc2.
+  Proof.
+    induction w as [|[q x] w IH]; intros acc1 acc2 Hin; [destruct Hin|]. cbn.
+    destruct (path_in_dec p (map fst w)) as [H|H]; [apply IH; exact H|].
+    rewrite !lookup_last_absent by exact H.
+    destruct Hin as [Heq|Hin]; [|contradiction]. cbn in Heq; subst q.
+    destruct (strs_eqb_spec p p); [reflexivity|congruence].
+  Qed.
+
+  Lemma writes_into_all fs0 e c I :
+    sf_outputs_always_written sf = true -> writes_into B sf tbl render fs0 e c I = writes B sf tbl render e c I.
+  Proof.
+    intros H. unfold writes_into, writes. rewrite H. cbn [orb].
+    induction (gen_order sf e c I) as [|it l IH]; cbn; [reflexivity|]. rewrite IH. destruct it; reflexivity.
+  Qed.
+
+  Theorem output_dir_history_irrelevant fs0 e c I p :
+    sf_outputs_always_written sf = true -> In p (out_paths B sf tbl render e c I) ->
+    files_into B sf tbl render fs0 e c I p = files B sf tbl render e c I p.
+  Proof.
+    intros H Hin. unfold files_into, files. rewrite (writes_into_all fs0 e c I H), lookup_last_app.
+    apply lookup_last_hit. exact Hin.
+  Qed.
+
   (* when every use in the language is gated (or not ambient), no agreement is needed at all *)
   Lemma clean_no_ungated l k :
     lang_clean sf tbl l = true -> k <> KPlatform -> k <> KTmplSets -> ungated tbl l k = false.
@@ -535,10 +576,11 @@ Section Indep.
   Qed.
 
   Lemma clean_order_facts c :
-    lang_clean sf tbl (c_lang c) = true -> sf_inc_sorted sf = true -> sf_natsort_total sf = true -> order_facts c = true.
+    lang_clean sf tbl (c_lang c) = true -> sf_inc_sorted sf = true -> sf_natsort_total sf = true ->
+    sf_config_cmdline_order sf = true -> order_facts c = true.
   Proof.
-    intros Hc Hs Hn. unfold order_facts. rewrite Hs, Hn, (clean_no_ungated _ KNsIter Hc) by discriminate.
-    rewrite orb_true_r. reflexivity.
+    intros Hc Hs Hn Hco. unfold order_facts, config_order_ok. rewrite Hs, Hn, Hco, (clean_no_ungated _ KNsIter Hc) by discriminate.
+    rewrite orb_true_r. destruct (c_config_files c); reflexivity.
   Qed.
 
   Theorem run_env_indep_clean e1 e2 c I :
@@ -596,8 +638,11 @@ Section Indep.
   Proof.
     intros Ha Hsf Hc Habs. unfold src_facts_ok in Hsf. repeat (apply andb_prop in Hsf as [Hsf ?]).
     apply run_env_indep_gen; [exact Ha| |].
-    - unfold order_facts. rewrite Hsf, (pickle_only_no_ungated _ KNsIter Hc) by discriminate.
-      rewrite orb_true_r. cbn [negb andb]. assumption.
+    - unfold order_facts, config_order_ok. rewrite Hsf, (pickle_only_no_ungated _ KNsIter Hc) by discriminate.
+      rewrite orb_true_r. cbn [negb andb].
+      match goal with H : sf_natsort_total sf = true |- _ => rewrite H end.
+      match goal with H : sf_config_cmdline_order sf = true |- _ => rewrite H end.
+      destruct (c_config_files c); reflexivity.
     - unfold env_agree.
       rewrite (pickle_only_no_ungated _ KClock Hc), (pickle_only_no_ungated _ KCwd Hc) by discriminate.
       repeat split; try discriminate. intros _; exact Habs.
@@ -630,7 +675,7 @@ Definition mk_cfg (l : lang) (audit : bool) : cfg :=
      c_ext := match l with LC => [46; 104] | LCpp => [46; 104; 112; 112] | LPy => [46; 112; 121] | LHtml => [46; 104; 116; 109; 108] end;
      c_stem := match l with LPy => [95; 95; 105; 110; 105; 116; 95; 95] | _ => [95] end;
      c_gen_ns := match l with LPy | LHtml => true | _ => false end;
-     c_user_templates := false; c_embed_audit := audit; c_omit_ser := false; c_prefer_sys := match l with LC => true | _ => false end;
+     c_config_files := []; c_user_templates := false; c_embed_audit := audit; c_omit_ser := false; c_prefer_sys := match l with LC => true | _ => false end;
      c_support_incs := match l with LC => [[110; 47; 115; 46; 104]] | LCpp => [[110; 47; 115; 46; 104; 112; 112]] | _ => [] end;
      c_support_files := match l with LC => [[[110]; [115; 46; 104]]] | LCpp => [[[110]; [115; 46; 104; 112; 112]]]
                                    | LPy => [[[110; 115; 117; 112; 46; 112; 121]]] | LHtml => [] end |}.
@@ -703,12 +748,49 @@ Definition cfg_user_templates (l : lang) : cfg :=
   let c := mk_cfg l false in
   {| c_lang := c_lang c; c_ext := c_ext c; c_stem := c_stem c; c_gen_ns := c_gen_ns c; c_embed_audit := false;
      c_omit_ser := c_omit_ser c; c_prefer_sys := c_prefer_sys c; c_support_incs := c_support_incs c;
-     c_support_files := c_support_files c; c_user_templates := true |}.
+     c_support_files := c_support_files c; c_config_files := []; c_user_templates := true |}.
 Theorem template_sets_paths_refuted :
   exists I e1 e2 p,
     files _ facts_tmplsets_paths tbl_tmplsets render0 e1 (cfg_user_templates LCpp) I p
     <> files _ facts_tmplsets_paths tbl_tmplsets render0 e2 (cfg_user_templates LCpp) I p.
 Proof. exists ex_inputs, env_a, env_b, (p_A (cfg_user_templates LCpp)). vm_compute. discriminate. Qed.
+
+(* --configuration files loaded in sorted() order of the paths as typed: which file wins depends on the working directory *)
+Definition cfg_two_configs (l : lang) : cfg :=
+  let c := mk_cfg l false in
+  {| c_lang := c_lang c; c_ext := c_ext c; c_stem := c_stem c; c_gen_ns := c_gen_ns c; c_embed_audit := false;
+     c_omit_ser := c_omit_ser c; c_prefer_sys := c_prefer_sys c; c_support_incs := c_support_incs c;
+     c_support_files := c_support_files c;
+     c_config_files := [ {| cf_path := [[120]; [115; 105; 116; 101]]; cf_val := Some 2 |};     (* x/site  : big *)
+                         {| cf_path := [[109]; [98; 111; 97; 114; 100]]; cf_val := Some 1 |} ]; (* m/board : little *)
+     c_user_templates := false |}.
+Definition env_root : env := mk_env 1000 [[112]] [[112]; [105; 110]] 0.          (* cwd = project root p, inputs in p/in *)
+Definition env_in_m : env := mk_env 1000 [[112]; [109]] [[112]; [105; 110]] 0.   (* cwd = p/m *)
+Theorem config_sorted_by_spelling_refuted :
+  exists I e1 e2 p,
+    files _ facts_config_sorted [] render0 e1 (cfg_two_configs LC) I p
+    <> files _ facts_config_sorted [] render0 e2 (cfg_two_configs LC) I p.
+Proof. exists ex_inputs, env_root, env_in_m, (p_A (cfg_two_configs LC)). vm_compute. discriminate. Qed.
+
+Lemma config_cmdline_order_same :
+  forall p, files _ facts_all_true [] render0 env_root (cfg_two_configs LC) ex_inputs p
+          = files _ facts_all_true [] render0 env_in_m (cfg_two_configs LC) ex_inputs p.
+Proof.
+  intros p. apply run_env_indep_clean; try reflexivity.
+  vm_compute; repeat (constructor; [cbn; intuition discriminate|]); constructor.
+Qed.
+
+(* the support generator keeping an existing support file: a reused output directory shows the earlier option set *)
+Theorem support_kept_refuted :
+  exists I e p fs0,
+    In p (out_paths _ facts_support_kept [] render0 e (cfg_two_configs LC) I) /\
+    files_into _ facts_support_kept [] render0 fs0 e (cfg_two_configs LC) I p
+    <> files _ facts_support_kept [] render0 e (cfg_two_configs LC) I p.
+Proof.
+  exists ex_inputs, env_root, [[110]; [115; 46; 104]],
+         (writes _ facts_support_kept [] render0 env_root (mk_cfg LC false) ex_inputs).
+  split; [vm_compute; left; reflexivity|]. vm_compute. discriminate.
+Qed.
 
 (* with --embed-auditing-info the files MAY differ: the premise of the theorem is needed *)
 Theorem audit_on_may_differ :
